@@ -35,9 +35,10 @@ type cgCtx struct {
 	nodes   map[*ssa.BasicBlock][]*cgNode
 	rets    []*cgNode
 	kids    map[ssa.Instruction]*cgCtx
-	args    []CV // actual for each fn.Params[i]
-	binds   []CV // actual for each fn.FreeVars[i]
-	isAsync bool // started with `go`
+	args    []CV   // actual for each fn.Params[i]
+	binds   []CV   // actual for each fn.FreeVars[i]
+	isAsync bool   // started with `go`
+	key     string // stable identity across rebuilds: chain of call sites
 }
 
 // CV is an SSA value in a context.
@@ -80,8 +81,13 @@ type cGraph struct {
 	cellStores  map[CV][]CV         // alloc -> stored values (whole-value stores)
 	fieldStores map[cgFieldKey][]CV // (alloc, field) -> stored values
 	tfStores    map[FieldID][]CV    // type-based fallback: stores through non-local bases
+	pathStores  map[string][]CV     // "alloc#f1#f2" -> values stored directly into that nested field
 	memBuilt    bool
 	domBuilt    bool
+
+	fieldStoreCount map[FieldID]int
+	hints           map[string]CV     // unexpanded dynamic call (ctx key | instr) -> function value found by the memory model (previous build)
+	byKey           map[string]*cgCtx // contexts of this build by key
 }
 
 type cgFieldKey struct {
@@ -94,7 +100,64 @@ const cgMaxCtxs = 400
 
 // c01NewGraph expands root.
 func c01NewGraph(p *Prog, root *ssa.Function) *cGraph {
-	g := &cGraph{p: p, pkg: root.Pkg, opaque: map[string]bool{}}
+	g := c01BuildGraph(p, root, nil)
+	// calls through function values that only the memory model can resolve (func-typed fields of a job struct,
+	// callbacks kept in a variable …): resolve them on the finished graph and rebuild with that knowledge
+	for round := 0; round < 3; round++ {
+		hints := map[string]CV{}
+		for k, v := range g.hints {
+			hints[k] = v
+		}
+		found := false
+		g.eachInstr(func(n *cgNode, in ssa.Instruction) {
+			ci, ok := in.(ssa.CallInstruction)
+			if !ok || (n.kid != nil && in == n.last()) {
+				return
+			}
+			if _, isDefer := in.(*ssa.Defer); isDefer {
+				return
+			}
+			cc := ci.Common()
+			if _, isB := cc.Value.(*ssa.Builtin); isB {
+				return
+			}
+			hk := fmt.Sprintf("%s|%p", n.C.key, in)
+			if _, done := hints[hk]; done {
+				return
+			}
+			v := g.deep(CV{n.C, cc.Value})
+			switch f := v.V.(type) {
+			case *ssa.Function:
+				if cc.IsInvoke() || !g.inlinable(n.C, origin(f)) {
+					return
+				}
+			case *ssa.MakeClosure:
+				if cc.IsInvoke() {
+					return
+				}
+			case *ssa.MakeInterface:
+				if !cc.IsInvoke() {
+					return
+				}
+			default:
+				return
+			}
+			if v == g.res(CV{n.C, cc.Value}) {
+				return // already visible to res: expansion was refused for another reason
+			}
+			hints[hk] = v
+			found = true
+		})
+		if !found {
+			break
+		}
+		g = c01BuildGraph(p, root, hints)
+	}
+	return g
+}
+
+func c01BuildGraph(p *Prog, root *ssa.Function, hints map[string]CV) *cGraph {
+	g := &cGraph{p: p, pkg: root.Pkg, opaque: map[string]bool{}, hints: hints, byKey: map[string]*cgCtx{}}
 	g.root = g.newCtx(nil, nil, root, nil, nil)
 	g.expand(g.root)
 	g.link(g.root)
@@ -102,10 +165,29 @@ func c01NewGraph(p *Prog, root *ssa.Function) *cGraph {
 	return g
 }
 
+// hinted: the function value a previous build found for the dynamic call in (context c).
+func (g *cGraph) hinted(c *cgCtx, in ssa.Instruction) (CV, bool) {
+	hv, ok := g.hints[fmt.Sprintf("%s|%p", c.key, in)]
+	if !ok || hv.C == nil {
+		return CV{}, false
+	}
+	nc := g.byKey[hv.C.key]
+	if nc == nil {
+		return CV{}, false
+	}
+	return CV{nc, hv.V}, true
+}
+
 func (g *cGraph) newCtx(parent *cgCtx, site ssa.CallInstruction, fn *ssa.Function, args, binds []CV) *cgCtx {
 	c := &cgCtx{parent: parent, site: site, fn: fn, nodes: map[*ssa.BasicBlock][]*cgNode{}, kids: map[ssa.Instruction]*cgCtx{}, args: args, binds: binds, id: len(g.ctxs)}
 	if parent != nil {
 		c.depth = parent.depth + 1
+		c.key = fmt.Sprintf("%s/%p", parent.key, site)
+	} else {
+		c.key = "root"
+	}
+	if g.byKey != nil {
+		g.byKey[c.key] = c
 	}
 	g.ctxs = append(g.ctxs, c)
 	return c
@@ -136,6 +218,12 @@ func (g *cGraph) target(c *cgCtx, ci ssa.CallInstruction) (fn *ssa.Function, arg
 		recv := g.res(CV{c, cc.Value})
 		mi, ok := recv.V.(*ssa.MakeInterface)
 		if !ok {
+			if hv, hok := g.hinted(c, ci.(ssa.Instruction)); hok {
+				recv = hv
+				mi, ok = recv.V.(*ssa.MakeInterface)
+			}
+		}
+		if !ok {
 			return nil, nil, nil, false
 		}
 		sel := g.p.SSA.MethodSets.MethodSet(mi.X.Type()).Lookup(cc.Method.Pkg(), cc.Method.Name())
@@ -156,6 +244,13 @@ func (g *cGraph) target(c *cgCtx, ci ssa.CallInstruction) (fn *ssa.Function, arg
 		args = append(args, CV{c, a})
 	}
 	v := g.res(CV{c, cc.Value})
+	switch v.V.(type) {
+	case *ssa.Function, *ssa.MakeClosure:
+	default:
+		if hv, ok := g.hinted(c, ci.(ssa.Instruction)); ok {
+			v = hv
+		}
+	}
 	switch f := v.V.(type) {
 	case *ssa.Function:
 		fn = f
@@ -441,6 +536,15 @@ func (g *cGraph) res(cv CV) CV {
 				return cv
 			}
 			a := g.res(CV{cv.C, v.X})
+			if fa, isFA := a.V.(*ssa.FieldAddr); isFA {
+				// field of a local object assigned exactly once in the whole package (struct literal):
+				// known without the memory model, so that calls through func-typed fields can be expanded
+				if sv, ok := g.singleFieldValue(a, fa); ok {
+					cv = sv
+					continue
+				}
+				return cv
+			}
 			al, isAlloc := a.V.(*ssa.Alloc)
 			if !isAlloc {
 				return cv
@@ -749,6 +853,7 @@ func (g *cGraph) buildMem() {
 	g.cellStores = map[CV][]CV{}
 	g.fieldStores = map[cgFieldKey][]CV{}
 	g.tfStores = map[FieldID][]CV{}
+	g.pathStores = map[string][]CV{}
 	for _, n := range g.nodes {
 		for _, in := range n.instrs() {
 			st, ok := in.(*ssa.Store)
@@ -762,6 +867,9 @@ func (g *cGraph) buildMem() {
 				g.cellStores[addr] = append(g.cellStores[addr], val)
 			case *ssa.FieldAddr:
 				base := g.res(CV{addr.C, a.X})
+				if k, _, ok := g.memKey(addr); ok {
+					g.pathStores[k] = append(g.pathStores[k], val)
+				}
 				if _, isAlloc := base.V.(*ssa.Alloc); isAlloc {
 					k := cgFieldKey{base, a.Field}
 					g.fieldStores[k] = append(g.fieldStores[k], val)
@@ -828,8 +936,16 @@ func (g *cGraph) fieldVals(basePtr CV, fld int, id FieldID, seen map[string]bool
 	if !isAlloc {
 		// a struct nested in another object: &outer.inner — the values of outer.inner, then their field
 		if nfa, ok := base.V.(*ssa.FieldAddr); ok {
-			if structs, ok := g.fieldVals(CV{base.C, nfa.X}, nfa.Field, fieldIDOfAddr(nfa), seen, depth+1); ok && len(structs) > 0 {
-				var out []CV
+			var direct []CV
+			if pk, _, ok := g.memKey(base); ok {
+				direct = g.pathStores[fmt.Sprintf("%s#%d", pk, fld)]
+			}
+			structs, sok := g.fieldVals(CV{base.C, nfa.X}, nfa.Field, fieldIDOfAddr(nfa), seen, depth+1)
+			if len(direct) > 0 && (!sok || len(structs) == 0) {
+				return direct, true
+			}
+			if sok && len(structs) > 0 {
+				out := append([]CV{}, direct...)
 				for _, sv := range structs {
 					vs, ok := g.fieldOfStruct(sv, fld, id, seen, depth+1)
 					if !ok {
@@ -1103,10 +1219,21 @@ func (g *cGraph) memKey(addr CV) (string, CV, bool) {
 	case *ssa.Alloc:
 		return cvKey(addr), addr, true
 	case *ssa.FieldAddr:
-		base := g.res(CV{addr.C, a.X})
-		if _, ok := base.V.(*ssa.Alloc); ok {
-			return fmt.Sprintf("%s#%d", cvKey(base), a.Field), base, true
+		// &obj.f1.f2…: a path of fields below a local object
+		path := ""
+		cur := addr
+		for i := 0; i < 6; i++ {
+			fa, ok := cur.V.(*ssa.FieldAddr)
+			if !ok {
+				break
+			}
+			path = fmt.Sprintf("#%d", fa.Field) + path
+			cur = g.res(CV{cur.C, fa.X})
 		}
+		if _, ok := cur.V.(*ssa.Alloc); ok {
+			return cvKey(cur) + path, cur, true
+		}
+		_ = a
 	}
 	return "", CV{}, false
 }
@@ -1307,10 +1434,30 @@ func (g *cGraph) extAddr(addr CV, depth int) bool {
 			addr = CV{addr.C, a.X}
 		case *ssa.Parameter:
 			return addr.C == g.root
-		case *ssa.Global, *ssa.TypeAssert, *ssa.MakeSlice, *ssa.Const:
+		case *ssa.Global, *ssa.TypeAssert, *ssa.MakeSlice:
 			return true
-		case *ssa.Call, *ssa.Extract:
+		case *ssa.Const:
+			return false // a zero value copied in: says nothing about who writes the object
+		case *ssa.Call:
 			return g.inlinedCall(addr) == nil
+		case *ssa.Extract:
+			if g.inlinedCall(CV{addr.C, a.Tuple}) == nil {
+				return true
+			}
+			// result of an expanded helper: external if every returned value is
+			edges, _ := g.phiEdges(addr)
+			if len(edges) == 0 {
+				return false
+			}
+			for _, e := range edges {
+				if c, isK := g.res(e.Val).V.(*ssa.Const); isK && c != nil {
+					continue // zero value on an error path
+				}
+				if !g.extAddr(e.Val, depth+1) {
+					return false
+				}
+			}
+			return true
 		case *ssa.Alloc:
 			// content written by code outside the graph (address handed to an unexpanded call), or copied from outside
 			for _, n := range g.nodes {
@@ -1351,4 +1498,45 @@ func (g *cGraph) unresolved(sets ...map[CV]bool) []CV {
 		}
 	}
 	return out
+}
+
+// singleFieldValue: fa addresses field f of a local struct object; f is stored exactly once in the package,
+// and that store is into this very object in the function that allocates it.
+func (g *cGraph) singleFieldValue(a CV, fa *ssa.FieldAddr) (CV, bool) {
+	base := g.res(CV{a.C, fa.X})
+	al, ok := base.V.(*ssa.Alloc)
+	if !ok {
+		return CV{}, false
+	}
+	id := fieldIDOfAddr(fa)
+	if g.fieldStoreCount == nil {
+		g.fieldStoreCount = map[FieldID]int{}
+		for _, fn := range g.p.Funcs {
+			if fn.Pkg != g.pkg {
+				continue
+			}
+			allInstrs(fn, func(in ssa.Instruction) {
+				if st, ok := in.(*ssa.Store); ok {
+					if f, ok := st.Addr.(*ssa.FieldAddr); ok {
+						g.fieldStoreCount[fieldIDOfAddr(f)]++
+					}
+				}
+			})
+		}
+	}
+	if g.fieldStoreCount[id] != 1 {
+		return CV{}, false
+	}
+	for _, u := range refs(al) {
+		f2, ok := u.(*ssa.FieldAddr)
+		if !ok || f2.Field != fa.Field {
+			continue
+		}
+		for _, w := range refs(f2) {
+			if st, ok := w.(*ssa.Store); ok && st.Addr == ssa.Value(f2) {
+				return CV{base.C, st.Val}, true
+			}
+		}
+	}
+	return CV{}, false
 }
